@@ -86,3 +86,4 @@ Definition exp_repair   := [E "disallow" BFalse BFalse BTrue BFalse].           
 Definition exp_edit     := [E "allow" BFalse BTrue BTrue BFalse].                     (* run_edit *)
 Definition exp_rebase   := [E "disallow" BFalse BTrue BTrue BFalse;                   (* run_rebase: pop, *)
                             E "disallow" BFalse BTrue BTrue BFalse].                  (*   then reapply *)
+Definition exp_squash   := [E "allow" BFalse BTrue BTrue BFalse].                     (* run_squash *)
